@@ -13,12 +13,13 @@
    - DER and UPER of two values that differ only in the order of SET OF members, at
      any depth, are equal (UPER: under key injectivity at every SET OF);
    - OER: refuted (SET_OF_encode_oer writes the members in memory order);
-   - the strip loop maps all contents octets denoting one integer to one octet string.
+   - the strip loop maps all contents octets denoting one integer to one octet string;
+   - compare_struct on INTEGER_t (coq/Rt/CanonicalCompare.v) is the order of the values.
    DEFAULT materialisation, BIT STRING unused bits, wide INTEGER_t in PER/OER/XER and
    CANONICAL-XER are outside the modelled algebra: tie only. *)
 From Coq Require Import ZArith List Bool Permutation Sorted.
 From A1 Require Import Base.Bytes Leaf.IntegerConv Rt.Types Rt.Comb Rt.Der Rt.Uper Rt.Oer
-  Rt.Canonical Rt.CanonicalProofs.
+  Rt.Canonical Rt.CanonicalProofs Rt.CanonicalCompare Rt.CanonicalCompareProofs.
 Import ListNotations.
 Local Open Scope Z_scope.
 
@@ -102,3 +103,22 @@ Theorem C06_uper_setof_order_irrelevant_fixed_width : forall std tg s e n v1 v2,
   uper_encode std (TSetOf tg s e) v1 = uper_encode std (TSetOf tg s e) v2.
 Proof. exact uper_setof_fixed_width. Qed.
 Print Assumptions C06_uper_setof_order_irrelevant_fixed_width.
+
+(* compare_struct on INTEGER_t (INTEGER_compare, coq/Rt/CanonicalCompare.v): the order
+   of the values, whatever sign-extension octets either buffer holds; hence the same
+   answer for any two representations of the same pair of values.  Findings
+   C01-wide-integer-compare and C06-integer-compare-negative-order (fixed) were the
+   refutations of this statement. *)
+Theorem C06_integer_compare_by_value : forall a b,
+  bytes_ok a -> bytes_ok b -> a <> [] -> b <> [] ->
+  int_compare a b = (twos_value a ?= twos_value b).
+Proof. exact int_compare_value. Qed.
+Print Assumptions C06_integer_compare_by_value.
+
+Theorem C06_integer_compare_representation_independent : forall a1 a2 b1 b2,
+  bytes_ok a1 -> bytes_ok a2 -> bytes_ok b1 -> bytes_ok b2 ->
+  a1 <> [] -> a2 <> [] -> b1 <> [] -> b2 <> [] ->
+  twos_value a1 = twos_value a2 -> twos_value b1 = twos_value b2 ->
+  int_compare a1 b1 = int_compare a2 b2.
+Proof. exact int_compare_same_value. Qed.
+Print Assumptions C06_integer_compare_representation_independent.
